@@ -86,13 +86,11 @@ pub fn generate(prop: &str, _run: u64, t: &mut Tape) -> Scenario {
         "C18" => gen4::gen_latency(t),
         "C19" => gen4::gen_graph(t),
         "C20" => gen4::gen_crash(t, _run % SITES_PER_JOB),
-        "C16" => {
-            if t.draw(2) == 0 {
-                gen2::gen_seq(t)
-            } else {
-                gen2::gen_timed(t, false)
-            }
-        }
+        "C16" => match t.draw(4) {
+            0 | 1 => gen2::gen_seq(t),
+            2 => gen2::gen_reorder(t),
+            _ => gen2::gen_timed(t, false),
+        },
         "C17" => gen2::gen_timed(t, false),
         _ => gen::gen_pipe(t, Profile::pipe()),
     }
